@@ -368,10 +368,22 @@ func firstLine(s string) string {
 
 // ---- schedule conditions on the virtual clock
 
-func c13SchedModel(startMin, endMin int, t time.Time) bool {
+// wd: weekdays on which a window may START (nil = every day); 1970-01-01 was a Thursday
+func c13SchedModel(startMin, endMin int, t time.Time, wd ...[]time.Weekday) bool {
 	sec := t.Unix()
 	day := sec / 86400
 	for _, D := range []int64{day - 1, day} {
+		if len(wd) > 0 && len(wd[0]) > 0 {
+			ok := false
+			for _, w := range wd[0] {
+				if time.Weekday((4+D)%7) == w {
+					ok = true
+				}
+			}
+			if !ok {
+				continue
+			}
+		}
 		ws := D*86400 + int64(startMin)*60
 		we := D*86400 + int64(endMin)*60
 		if endMin <= startMin {
@@ -394,10 +406,30 @@ func c13SchedBody(t *testing.T, steps int) mc.Body {
 	advances := []time.Duration{9 * time.Second, 10 * time.Second, 25 * time.Second, 60 * time.Second, 61 * time.Second}
 	return func(x *mc.X) mc.Outcome {
 		w := wins[x.Choose(len(wins), "window")]
-		withNumber := x.Choose(2, "with number condition") == 1
-		cs := []client.Condition{{ConditionType: data.PointValueSchedule, Start: w.s, End: w.e}}
+		// weekday sets (the clock starts on a Saturday): every day, Saturday, Sunday, Friday
+		wdSets := [][]time.Weekday{nil, {time.Saturday}, {time.Sunday}, {time.Friday}}
+		wdBools := func(ws []time.Weekday) []bool {
+			b := make([]bool, 7)
+			for _, d := range ws {
+				b[d] = true
+			}
+			if len(ws) == 0 {
+				return nil
+			}
+			return b
+		}
+		wd1 := wdSets[x.Choose(len(wdSets), "weekdays of the schedule condition")]
+		// companion condition: none, a number condition, or a second schedule condition (same window) with its own weekdays
+		comp := x.Choose(5, "companion condition")
+		withNumber := comp == 1
+		var wd2 []time.Weekday
+		cs := []client.Condition{{ConditionType: data.PointValueSchedule, Start: w.s, End: w.e, Weekdays: wdBools(wd1)}}
 		if withNumber {
 			cs = append(cs, client.Condition{ConditionType: data.PointValuePointValue, ValueType: data.PointValueNumber, Operator: data.PointValueGreaterThan, Value: 5, PointType: "value"})
+		}
+		if comp >= 2 {
+			wd2 = wdSets[comp-2]
+			cs = append(cs, client.Condition{ConditionType: data.PointValueSchedule, Start: w.s, End: w.e, Weekdays: wdBools(wd2)})
 		}
 		var out mc.Outcome
 		leak := bubble(t, func() {
@@ -409,7 +441,7 @@ func c13SchedBody(t *testing.T, steps int) mc.Body {
 			condActive := make([]bool, len(cs))
 			ruleActive := false
 			lastTick := time.Time{}
-			x.Logf("schedule %s-%s (number condition: %v), clock starts %s", w.s, w.e, withNumber, start.UTC().Format(time.RFC3339))
+			x.Logf("schedule %s-%s weekdays %v (companion: number condition %v, second schedule %v weekdays %v), clock starts %s", w.s, w.e, wd1, withNumber, comp >= 2, wd2, start.UTC().Format(time.RFC3339))
 			for s := 0; s < steps; s++ {
 				op := x.Choose(len(advances)+2, "op")
 				g.pubs = nil
@@ -426,7 +458,10 @@ func c13SchedBody(t *testing.T, steps int) mc.Body {
 							continue
 						}
 						lastTick = tk
-						newCond[0] = c13SchedModel(w.sm, w.em, tk)
+						newCond[0] = c13SchedModel(w.sm, w.em, tk, wd1)
+						if comp >= 2 {
+							newCond[1] = c13SchedModel(w.sm, w.em, tk, wd2)
+						}
 						exp = append(exp, c13Expect(condActive, newCond, &ruleActive)...)
 					}
 				} else {
@@ -479,7 +514,7 @@ func TestC13(t *testing.T) {
 			Rule: "same rule configurations plus the rule without conditions, started with every combination of stored `active` flags of the rule and of each condition (a rule client restarted after its configuration changed: the stored rule flag may disagree with the conditions) x one single-point batch: after the batch the rule is active exactly when all conditions are, and the action list ran iff the rule's state changed"},
 			c13PointsBody(t, 1, false, true))
 		r.Explore(mc.Config{Name: fmt.Sprintf("schedule-conditions-s%d", steps), Serial: true, SplitDepth: 3,
-			Rule: fmt.Sprintf("6 schedule windows around the (virtual) clock start 2000-01-01T00:00:00Z incl. wrap over midnight and start=end, alone or AND a number condition x all sequences of %d operations over {advance 9 s, 10 s, 25 s, 60 s, 61 s, point 4, point 6}; after every operation the publications are compared with the interval model evaluated at each 10 s tick", steps)},
+			Rule: fmt.Sprintf("6 schedule windows around the (virtual) clock start 2000-01-01T00:00:00Z incl. wrap over midnight and start=end, each with weekdays {every day, Saturday (the start day), Sunday, Friday}, alone / AND a number condition / AND a second schedule condition with its own weekdays {every day, Saturday, Sunday} x all sequences of %d operations over {advance 9 s, 10 s, 25 s, 60 s, 61 s, point 4, point 6}; after every operation the publications are compared with the interval model evaluated at each 10 s tick", steps)},
 			c13SchedBody(t, steps))
 		r.Assume("the rule sees what the store rebroadcasts: up.<parent>.<node> messages (C06); condition key filters compare raw keys, so the alphabet avoids the \"\" / \"0\" aliases")
 		r.Assume("goroutine interleavings inside one synctest step are left to the Go runtime; the rule client is a single select loop")
